@@ -379,7 +379,9 @@ class Session:
                 "how_to_read": "calls made one after the other in one process; lists/events with the same token are the "
                                "same Python object (fields as they were at that call); event = [token, timestamp_us, "
                                "duration_us, data (typed text), id]",
-                "rerun_hint": "PYTHONPATH=<repo>:/verif /venv/bin/python -m harness.txhist replay <this file>"}
+                "rerun_hint": "PYTHONPATH=<repo>:/verif /venv/bin/python -m harness.txhist replay <this file>   (prints every call "
+                              "and what it returns);  ... -m harness.<c08|c10|c15|c16>_hist judge <this file>   (the oracle's verdict "
+                              "on the last call)"}
 
 
 def json_spec(spec):
@@ -513,7 +515,8 @@ def judge_main(path, judge, call=None):
     from . import common
     common.setup_impl_env()
     from aw_core.models import Event
-    steps = json.load(open(path))["session"]
+    obj = json.load(open(path))
+    steps = obj.get("replay", obj)["session"]
     v = run_steps(steps, Event, call or generic_call(QueryLayer()), judge(Event))
     print("VERDICT " + ("OK" if v in (None, "skip") else str(v).replace("\n", " ")))
     return 0
@@ -536,12 +539,35 @@ def minimise_session(log, module, sig, max_steps=25):
     return shrink_list(log[:-1], fails, max_steps) + [last], True
 
 
+HISTORY_NOTE = (" [history: the same call made again alone on fresh objects does not fail - the outcome depends on earlier "
+                "calls in this process]")
+
+
+def make_room(ck):
+    """Check.failing_input keeps at most 20 failing inputs (the report shows six); when the earlier streams filled
+    that list, drop its tail so that the streams of this module can still record theirs"""
+    if len(ck.violations) > 12:
+        del ck.violations[12:]
+
+
+def prefer_session_failure(ck):
+    """A failing input that only fails because of what was called before it is a poor primary replay (it passes
+    when replayed alone): when the first recorded one is of that kind, put the first failing call SEQUENCE first."""
+    if ck.violations and "[history:" in str(ck.violations[0][1]):
+        k = next((i for i, v in enumerate(ck.violations) if isinstance(v[2], dict) and "session" in v[2]), None)
+        if k:
+            ck.violations.insert(0, ck.violations.pop(k))
+
+
 def session_replay(steps, minimal):
     return {"session": steps, "reproduced_and_minimised_in_a_fresh_process": bool(minimal),
             "how_to_read": "calls made one after the other in one process; lists / events / data dicts with the same token "
                            "are the same Python object (fields as they were at that call); event = [token, timestamp_us, "
-                           "duration_us, data (typed text), id, data-dict token]",
-            "rerun_hint": "PYTHONPATH=<repo>:/verif /venv/bin/python -m harness.txhist replay <this file>"}
+                           "duration_us, data (typed text), id, data-dict token]; `what` describes the step relative to the call "
+                           "before it in the original run (earlier calls may have been dropped by the minimiser)",
+            "rerun_hint": "PYTHONPATH=<repo>:/verif /venv/bin/python -m harness.txhist replay <this file>   (prints every call and "
+                          "what it returns);  ... -m harness.<c08|c10|c15|c16>_hist judge <this file>   (prints the oracle's verdict "
+                          "on the last call)"}
 
 
 def generic_call(ql):
@@ -550,6 +576,8 @@ def generic_call(ql):
     def call(st, args):
         c = st["call"]
         extra = list(st.get("scalars", {}).values())
+        if c.get("unpack"):          # the function takes the events of the (one) list as separate arguments
+            args = list(args[0])
         if c["route"] == "direct":
             return getattr(importlib.import_module(c["module"]), c["name"])(*args, *extra)
         return ql.call(c["route"], c["name"], *args, *extra)
